@@ -128,6 +128,20 @@ def make_graph(rng, quick, hostile=False, clash=False, shape=None, extra=None):
             for a_, v_ in list(n["attrs"].items()):
                 if isinstance(v_, tuple) and v_[0] == C: n["attrs"][a_] = (UA, "i", "85") if a_ != "DataType" else (UA, "i", "24")
         g.refs = [r for r in g.refs if not ((r[0][0] == A or r[1][0] == A) and C in (r[0][0], r[1][0], r[2][0]))]
+    if shape == "markup-id":
+        # a node of a written namespace whose string identifier carries markup characters and that has references across the namespace border
+        own = [k for k in g.order if k[0] != UA]
+        if own:
+            old_k = own[0]; new_k = (old_k[0], "s", "P&V <%s>" % old_k[2][:6])
+            g.nodes[new_k] = g.nodes.pop(old_k); g.order[g.order.index(old_k)] = new_k
+            g.refs = [tuple(new_k if x == old_k else x for x in r) for r in g.refs]
+            for n_ in g.nodes.values():
+                for a_, v_ in list(n_["attrs"].items()):
+                    if v_ == old_k: n_["attrs"][a_] = new_k
+            # ... and texts that literally contain entity-looking sequences (they must come back as they are)
+            g.nodes[new_k]["display"] = "R&amp;D &lt;x&gt;"; g.nodes[new_k]["desc"] = "&#65; &quot;q&quot; &amp;amp;"
+            others = [k for k in g.order if k[0] != new_k[0]]
+            g.refs.append((new_k, rng.choice(others), (UA, "i", "35"))); g.refs.append((rng.choice(others), new_k, (UA, "i", "47")))
     if extra: extra(g)
     if clash:          # one browse name carried by nodes of two node classes
         own = [k for k in g.order if k[0] != UA]
@@ -321,8 +335,10 @@ def run(ctx, prop):
     reqs = []; meta = []
     try:
         for ci in range({"quick": 14, "thorough": 300}[ctx.tier]):
-            hostile = rng.random() < 0.4
-            g, ds = make_graph(rng, ctx.quick(), hostile=hostile, shape="skip-middle" if ci % 7 == 0 else ("wide" if ci % 7 == 3 else ("attr-only" if ci % 7 == 5 else None)))
+            shape = {0: "skip-middle", 1: "markup-id", 3: "wide", 5: "attr-only"}.get(ci % 7)
+            # the structural shapes are generated without hostile text, so that what they show is not attributed to the recorded escaping findings
+            hostile = rng.random() < 0.4 and shape in (None, "markup-id")
+            g, ds = make_graph(rng, ctx.quick(), hostile=hostile, shape=shape)
             files = [(n, docs.render(d, rng)) for n, d, _ in ds]
             paths = graphprops.write_files(work, files)
             st, G = graphprops.build(paths)
